@@ -836,7 +836,7 @@ impl Exec {
 /// the transaction standing for id `i` (its proposal short id is the model's id `i`)
 fn id_tx(i: u64) -> TransactionView {
     TransactionBuilder::default()
-        .version(((i + 1000) as u32).pack())
+        .version((i + 1000) as u32)
         .build()
 }
 
@@ -1275,7 +1275,7 @@ pub fn run(opts: &Opts) {
     let stream = opts.extra.first().map(|s| s.as_str()).unwrap_or("arith").to_string();
     let mut out = Out::new(&opts.out);
     let mut ex = Exec::new();
-    let mut run_case = |ex: &mut Exec, out: &mut Out, label: &str, ops: &[String]| {
+    let run_case = |ex: &mut Exec, out: &mut Out, label: &str, ops: &[String]| {
         out.begin_case(label);
         let mut answers = vec![];
         for op in ops {
